@@ -4,6 +4,8 @@ import (
 	"encoding/binary"
 	"fmt"
 	"math"
+	"math/big"
+	"strconv"
 	"strings"
 
 	"github.com/cloudwego/dynamicgo/internal/simrt"
@@ -88,6 +90,8 @@ type TVal struct {
 	Keys   []*TVal
 	Vals   []*TVal
 	Zero   bool // written as an unset field's zero value: nested unset-field expansion does not apply
+	// NumText, when set, is the exact JSON spelling of this double (long decimal expansions, ties)
+	NumText string
 }
 
 type TFieldVal struct {
@@ -223,6 +227,30 @@ func (g *tgen) ident(prefix string) string {
 	return sb.String()
 }
 
+var specialKeyPieces = []string{"-", "$", "#", " ", "+", ",", "!", "%", "&", "(", ")", "*", ".", "/", ":", "'", "\"", "\t", "é", "中", "a", "Z", "0", "_"}
+
+// specialKey builds a JSON member key that is not an identifier.
+func (g *tgen) specialKey() string {
+	g.nctr++
+	n := 1 + g.t.Intn(5, "skey.len")
+	s := "k"
+	for i := 0; i < n; i++ {
+		s += specialKeyPieces[g.t.Intn(len(specialKeyPieces), "skey.piece")]
+	}
+	return s + fmt.Sprint(g.nctr)
+}
+
+// idlQuote writes s as a Thrift IDL string literal (double quotes; only the double quote is escaped).
+func idlQuote(s string) string {
+	if !strings.Contains(s, "\"") {
+		return "\"" + s + "\""
+	}
+	if !strings.Contains(s, "'") {
+		return "'" + s + "'"
+	}
+	return "\"" + strings.ReplaceAll(s, "\"", "\\\"") + "\""
+}
+
 func (g *tgen) newStruct(depth int) *TStruct {
 	st := &TStruct{Name: g.ident("S")}
 	nf := 1 + g.t.Intn(g.o.MaxFields, "struct.nfields")
@@ -265,10 +293,15 @@ func (g *tgen) newStruct(depth int) *TStruct {
 		}
 		if g.o.Aliases && g.t.Chance(1, 5, "field.alias") {
 			f.Alias = g.ident("k")
-			if g.t.Chance(1, 2, "field.alias.kind") {
+			switch g.t.Intn(4, "field.alias.kind") {
+			case 0, 1:
 				f.Anno = fmt.Sprintf(` (api.key = "%s")`, f.Alias)
-			} else {
+			case 2:
 				f.Anno = fmt.Sprintf(" (go.tag = 'json:\"%s\"')", f.Alias)
+			default:
+				// a JSON key is an arbitrary string: punctuation below '.', quotes, blanks, control and non-ASCII characters
+				f.Alias = g.specialKey()
+				f.Anno = " (api.key = " + idlQuote(f.Alias) + ")"
 			}
 		}
 		if g.o.JSConv && f.Anno == "" && (f.T.Kind == tI64 || f.T.Kind == tI32 || f.T.Kind == tI16) && g.t.Chance(1, 4, "field.jsconv") {
@@ -383,6 +416,9 @@ type vgenOpts struct {
 	NoNullOptional bool
 	// NonNegByteKeys keeps map keys of thrift type byte in 0..127 (see prop_c04.go).
 	NonNegByteKeys bool
+	// LongDecimals: some doubles are spelled with their exact (long) decimal expansion, or as the
+	// exact midpoint between two adjacent doubles (+ a trailing digit), where only correct rounding helps
+	LongDecimals bool
 }
 
 type vgen struct {
@@ -441,6 +477,38 @@ func (g *vgen) floatVal() float64 {
 	}
 }
 
+// longDecimal gives v an exact long decimal spelling; v.D becomes the correctly rounded value of it.
+func (g *vgen) longDecimal(v *TVal) {
+	mant := int64(g.t.Draw(1<<53, "float.long.mant")) | 1<<52
+	k := g.t.Intn(140, "float.long.exp")
+	f := math.Ldexp(float64(mant), -k)
+	if g.t.Chance(1, 2, "float.long.neg") {
+		f = -f
+	}
+	x := new(big.Float).SetPrec(4000).SetFloat64(f)
+	tail := ""
+	if g.t.Chance(2, 3, "float.long.mid") {
+		next := math.Nextafter(f, math.Inf(1))
+		y := new(big.Float).SetPrec(4000).SetFloat64(next)
+		x.Add(x, y)
+		x.Quo(x, big.NewFloat(2).SetPrec(4000))
+		tail = []string{"", "1", "0000000001", "9"}[g.t.Intn(4, "float.long.tail")]
+	}
+	s := x.Text('f', 1200)
+	if strings.Contains(s, ".") {
+		s = strings.TrimRight(s, "0")
+		if strings.HasSuffix(s, ".") {
+			s += "0"
+		}
+		s += tail
+	}
+	d, err := strconv.ParseFloat(s, 64)
+	if err != nil {
+		return
+	}
+	v.D, v.NumText = d, s
+}
+
 // escape-relevant alphabet for strings
 var strPieces = []string{"a", "b", "Z", "0", " ", "\"", "\\", "/", "\n", "\t", "\r", "\b", "\f", "\x00", "\x01", "\x1f", "\x7f", "é", "中", " ", " ", "😀", "𝄞", "<", ">", "&", "'", "ÿ", "�", "xyz", "key"}
 
@@ -491,6 +559,9 @@ func (g *vgen) value(t *TType, depth int) *TVal {
 		v.I = g.intFor(t.Kind)
 	case tDOUBLE:
 		v.D = g.floatVal()
+		if g.o.LongDecimals && g.t.Chance(1, 8, "float.long") {
+			g.longDecimal(v)
+		}
 	case tSTRING:
 		if t.Binary {
 			v.S = g.binVal(g.o.MaxStr)
